@@ -88,6 +88,38 @@ def _prepare(cfg):
     return W, info
 
 
+class _ChunkIOCounter:
+    """Counts read_chunk / write_chunk calls of a PrecomputedIO object and remembers the count at the start of each scale
+    transition, so that a failure can be classified: the tool's *refusal* of a pair of scales is a ValueError or
+    NotImplementedError raised before any chunk of that transition is read or written (whatever its wording); anything
+    else is a crash that leaves the level partly written."""
+    def __init__(self, io, dp):
+        self.n = 0
+        self.at_level_start = 0
+        rd, wr, orig = io.read_chunk, io.write_chunk, dp.compute_dyadic_downscaling
+
+        def read_chunk(*a, **k):
+            self.n += 1
+            return rd(*a, **k)
+
+        def write_chunk(*a, **k):
+            self.n += 1
+            return wr(*a, **k)
+
+        def level(*a, **k):
+            self.at_level_start = self.n
+            return orig(*a, **k)
+        io.read_chunk, io.write_chunk = read_chunk, write_chunk
+        self._dp, self._orig = dp, orig
+        dp.compute_dyadic_downscaling = level
+
+    def restore(self):
+        self._dp.compute_dyadic_downscaling = self._orig
+
+    def is_refusal(self, e):
+        return isinstance(e, (ValueError, NotImplementedError)) and self.n == self.at_level_start
+
+
 def H_levels(ctx, cfg):
     try:
         W, info = _prepare(cfg)
@@ -123,18 +155,21 @@ def H_levels(ctx, cfg):
                     scales=[(s["key"], s["size"], s["chunk_sizes"][0]) for s in info["scales"]]))
     if len(info["scales"]) == 1:
         ctx.ok("single-scale-info-nothing-to-compute")
+    counter = _ChunkIOCounter(io, W.dp)
     try:
-        W.dp.compute_dyadic_scales(io, ds)
+        try:
+            W.dp.compute_dyadic_scales(io, ds)
+        finally:
+            counter.restore()
         W.finish()
     except Exception as e:
         if type(e).__name__ in ("OutsideModel", "Inconclusive"):
             raise
         # "fails with an error instead of writing wrong data": the levels completed so far are still checked.
         # The refusal the statement allows is the tool's own verdict that the pair of scales cannot be processed
-        # (ValueError of the chunk-size admission check, NotImplementedError for unsupported factors), given before any
-        # chunk of that level is written; an assertion, index or data-access error from inside the chunk loops is a crash
-        # that leaves the level partly unwritten
-        refusal = (isinstance(e, ValueError) and "Unsupported combination of chunk sizes" in str(e)) or isinstance(e, NotImplementedError)
+        # (ValueError / NotImplementedError raised before any chunk of that transition is read or written); an error from
+        # inside the chunk loops is a crash that leaves the level partly unwritten
+        refusal = counter.is_refusal(e)
         if not refusal:
             ctx.fail("pyramid-computation-crashed-instead-of-refusing-or-completing", detail=f"{type(e).__name__}: {e}"[:300], exc=repr(e)[:200])
             return
@@ -243,11 +278,14 @@ def H_tiling(ctx, cfg):
         {"key": "a", "size": osz, "chunk_sizes": [list(old_cs)]}, {"key": "b", "size": nsz, "chunk_sizes": [list(new_cs)]}]}
     written = []
 
+    reads = []
+
     class Reader:
         def scale_is_lossy(self, k):
             return False
 
         def read_chunk(self, key, cc):
+            reads.append(cc)
             return ShapeArr((1, cc[5] - cc[4], cc[3] - cc[2], cc[1] - cc[0]), src=cc)
 
     class Down:
@@ -267,7 +305,7 @@ def H_tiling(ctx, cfg):
         if type(e).__name__ in ("OutsideModel", "Inconclusive"):
             raise
         ctx.prove(not written, "error-raised-before-anything-is-written", detail=f"{type(e).__name__}: {e}")
-        refusal = (isinstance(e, ValueError) and "Unsupported combination of chunk sizes" in str(e)) or isinstance(e, NotImplementedError)
+        refusal = isinstance(e, (ValueError, NotImplementedError)) and not written and not reads
         ctx.prove(refusal, "failure-is-the-tool's-refusal-of-the-pair-of-scales", detail=f"{type(e).__name__}: {e}")
         ctx.ok("raises-" + type(e).__name__)
         return
@@ -339,7 +377,7 @@ def replay(cfg, cex):
                 dp.compute_dyadic_downscaling(info, 0, ds, io, io)
             except Exception as e:
                 wrote = os.path.isdir(os.path.join(td, "b"))
-                refusal = (isinstance(e, ValueError) and "Unsupported combination of chunk sizes" in str(e)) or isinstance(e, NotImplementedError)
+                refusal = isinstance(e, (ValueError, NotImplementedError)) and not wrote
                 return wrote or not refusal, f"raised {type(e).__name__}: {e} (after writing: {wrote}; refusal of the pair of scales: {refusal})"
             ref = ds.downscale(vol, f)
             for x0 in range(0, nsz[0], new_cs[0]):
@@ -390,12 +428,16 @@ def replay(cfg, cex):
         if cfg["layout"] == "sharded":
             acc.close()
         ds = load.mod("downscaling").get_downscaler(cfg["method"], info, {"outside_value": cfg["outside"]})
+        counter = _ChunkIOCounter(io, dp)
         try:
-            dp.compute_dyadic_scales(io, ds)
+            try:
+                dp.compute_dyadic_scales(io, ds)
+            finally:
+                counter.restore()
             if cfg["layout"] == "sharded":
                 acc.close()
         except Exception as e:
-            refusal = (isinstance(e, ValueError) and "Unsupported combination of chunk sizes" in str(e)) or isinstance(e, NotImplementedError)
+            refusal = counter.is_refusal(e)
             if refusal:
                 return False, f"refuses the pair of scales ({type(e).__name__}: {e}), allowed"
             return True, (f"size {cfg['size']}, resolution {cfg['res']}, target chunk {cfg['tcs']} (chunks "
